@@ -12,12 +12,15 @@ static const char *e2_key[4] = { "x", "xy", "X" }; static int e2_nkey = 3;      
 static const char *e2_val[8] = { "1", "2" }; static int e2_nval = 2;
 static int e2_nstarts_used = 8;
 
-static const char *e2_canon_sec(const char *s)   /* reference: "" and NULL = group-less, [A] = A */
+static const char *e2_canon_sec(const char *s)   /* reference: "", "[]" and NULL = group-less, [A] = A */
 {
+  static char buf[8][16]; static int bi;
   if (!s || !*s) return NULL;
-  if (!strcmp(s, "[A]")) return "A";
-  if (!strcmp(s, "[B]")) return "B";
-  if (!strcmp(s, "[AB]")) return "AB";
+  size_t n = strlen(s);
+  if (s[0] == '[' && s[n - 1] == ']' && n < 16 && !memchr(s + 1, ']', n - 2) && !memchr(s + 1, '[', n - 2)) {
+    if (n == 2) return NULL;
+    char *b = buf[bi++ & 7]; memcpy(b, s + 1, n - 2); b[n - 2] = 0; return b;
+  }
   return s;
 }
 
